@@ -626,6 +626,9 @@ class ModuleInliner:
                 _FoldLiteralStrings().visit(self.tree)
                 if not _propagate_literal_string_locals(self.tree):
                     break
+        n_named = propagate_named_conditions(self.tree)
+        if n_named:
+            self.log.append(f"{self.modname}: substituted {n_named} named condition(s) / mask(s)")
         ast.fix_missing_locations(self.tree)
         return self.tree
 
@@ -725,6 +728,191 @@ class _FoldLiteralStrings(ast.NodeTransformer):
             else:
                 return j
         return ast.copy_location(ast.Constant(value=out), j)
+
+
+# ------------------------------------------------------------------------------------------------ named conditions / masks
+_OBSERVER_METHODS = {"isna", "notna", "isnull", "notnull", "isin", "any", "all", "startswith", "endswith", "duplicated", "between", "eq", "ne", "lt", "le", "gt", "ge"}
+_OBSERVER_FUNCS = {"str", "len", "isinstance", "bool", "np.isfinite", "np.isnan", "np.logical_not", "np.logical_and", "np.logical_or", "numpy.isfinite", "numpy.isnan",
+                   "pd.isna", "pd.isnull", "pd.notna", "pd.notnull"}
+_MUTATORS = {"append", "extend", "insert", "update", "pop", "clear", "remove", "sort", "setdefault", "drop", "dropna", "fillna", "rename", "reset_index", "set_index", "sort_index",
+             "sort_values", "add", "discard"}
+
+
+def _is_plain(e: ast.AST) -> bool:
+    """A read of a name / attribute chain / constant-keyed item: no call, no arithmetic."""
+    if isinstance(e, (ast.Name, ast.Constant)):
+        return True
+    if isinstance(e, ast.Attribute):
+        return _is_plain(e.value)
+    if isinstance(e, ast.Subscript):
+        return _is_plain(e.value) and (_is_plain(e.slice) or (isinstance(e.slice, (ast.Tuple, ast.List)) and all(_is_plain(x) for x in e.slice.elts)))
+    return False
+
+
+def _is_observer(e: ast.AST, top: bool = True) -> bool:
+    """A condition / mask / type tuple: comparisons, boolean combinations, membership tests and calls of pure observers on plain reads."""
+    if isinstance(e, ast.Compare):
+        return all(_is_observer(x, False) or _is_plain(x) for x in [e.left] + list(e.comparators))
+    if isinstance(e, ast.BoolOp):
+        return all(_is_observer(x, False) or _is_plain(x) for x in e.values)
+    if isinstance(e, ast.UnaryOp) and isinstance(e.op, (ast.Not, ast.Invert)):
+        return _is_observer(e.operand, False) or _is_plain(e.operand)
+    if isinstance(e, ast.BinOp) and isinstance(e.op, (ast.BitAnd, ast.BitOr)):
+        return all(_is_observer(x, False) for x in (e.left, e.right))
+    if isinstance(e, ast.Call) and not any(k.arg is None for k in e.keywords):
+        args = list(e.args) + [k.value for k in e.keywords]
+        okargs = all(_is_plain(a) or _is_observer(a, False) or (isinstance(a, (ast.Tuple, ast.List)) and all(_is_plain(x) for x in a.elts)) for a in args)
+        if isinstance(e.func, ast.Attribute) and e.func.attr in _OBSERVER_METHODS and (_is_plain(e.func.value) or _is_observer(e.func.value, False)):
+            return okargs
+        if ast.unparse(e.func) in _OBSERVER_FUNCS:
+            return okargs
+        return False
+    if top and isinstance(e, ast.Tuple) and e.elts and all(isinstance(x, ast.Attribute) and _is_plain(x) for x in e.elts):
+        return True     # a tuple of classes handed to isinstance
+    return False
+
+
+def _paths(e: ast.AST) -> Set[str]:
+    """Attribute / item paths read by an expression, as text ('df', 'self.tz', "rows['temperature']")."""
+    out: Set[str] = set()
+    for n in ast.walk(e):
+        if isinstance(n, (ast.Name, ast.Attribute, ast.Subscript)) and _is_plain(n) and not isinstance(n, ast.Constant):
+            out.add(ast.unparse(n))
+    return out
+
+
+def _interferes(stmt: ast.AST, roots: Set[str], paths: Set[str]) -> bool:
+    """Does the statement (re)bind or mutate something the expression reads?"""
+    for n in ast.walk(stmt):
+        tgts: List[ast.AST] = []
+        if isinstance(n, ast.Assign):
+            tgts = list(n.targets)
+        elif isinstance(n, (ast.AugAssign, ast.AnnAssign)):
+            tgts = [n.target]
+        elif isinstance(n, (ast.For, ast.AsyncFor)):
+            tgts = [n.target]
+        elif isinstance(n, ast.Delete):
+            tgts = list(n.targets)
+        elif isinstance(n, (ast.With, ast.AsyncWith)):
+            tgts = [i.optional_vars for i in n.items if i.optional_vars is not None]
+        elif isinstance(n, ast.NamedExpr):
+            tgts = [n.target]
+        flat: List[ast.AST] = []
+        while tgts:
+            t = tgts.pop()
+            if isinstance(t, (ast.Tuple, ast.List)):
+                tgts.extend(t.elts)
+            elif isinstance(t, ast.Starred):
+                tgts.append(t.value)
+            else:
+                flat.append(t)
+        for t in flat:
+            base = t
+            while isinstance(base, (ast.Attribute, ast.Subscript)):
+                base = base.value
+            if not isinstance(base, ast.Name) or base.id not in roots:
+                continue
+            if isinstance(t, ast.Name):
+                return True
+            tt = ast.unparse(t.value if isinstance(t, ast.Subscript) else t)
+            tt = tt[:-4] if tt.endswith((".loc", ".iloc")) else (tt[:-3] if tt.endswith(".at") else tt)
+            if any(p_ == tt or p_.startswith(tt + ".") or p_.startswith(tt + "[") or tt.startswith(p_ + ".") or tt.startswith(p_ + "[") for p_ in paths):
+                return True
+        if isinstance(n, ast.Call) and isinstance(n.func, ast.Attribute) and n.func.attr in _MUTATORS:
+            base = n.func.value
+            while isinstance(base, (ast.Attribute, ast.Subscript)):
+                base = base.value
+            if isinstance(base, ast.Name) and base.id in roots:
+                inplace = any(k.arg == "inplace" and isinstance(k.value, ast.Constant) and k.value.value is True for k in n.keywords)
+                if n.func.attr in ("append", "extend", "insert", "update", "pop", "clear", "remove", "sort", "setdefault", "add", "discard") or inplace:
+                    return True
+    return False
+
+
+def propagate_named_conditions(tree: ast.AST) -> int:
+    """Inside each function: `name = <condition / mask / tuple of classes>` bound exactly once, read only after it in the same block (or
+    deeper), with nothing the expression reads re-bound or mutated before its last read, is substituted where it is read and the
+    naming statement is dropped.  Giving a condition a name (`is_kept = x.index.isin(y.index)`; `df.loc[~is_kept]`) is the most common
+    harmless edit; rules then see the same expression either way.  Returns the number of names substituted."""
+    count = 0
+    for fn in [n for n in ast.walk(tree) if isinstance(n, FuncNode)]:
+        params = {a.arg for a in fn.args.posonlyargs + fn.args.args + fn.args.kwonlyargs}
+        if fn.args.vararg:
+            params.add(fn.args.vararg.arg)
+        if fn.args.kwarg:
+            params.add(fn.args.kwarg.arg)
+        stores: Dict[str, int] = {}
+        for n in _walk_no_nested_defs(fn.body):
+            if isinstance(n, ast.Name) and isinstance(n.ctx, (ast.Store, ast.Del)):
+                stores[n.id] = stores.get(n.id, 0) + 1
+            if isinstance(n, (ast.Global, ast.Nonlocal)):
+                for nm in n.names:
+                    stores[nm] = stores.get(nm, 0) + 2
+        nested_reads: Set[str] = set()
+        for sub in ast.walk(fn):
+            if sub is not fn and isinstance(sub, (ast.FunctionDef, ast.AsyncFunctionDef, ast.Lambda, ast.ClassDef)):
+                for n in ast.walk(sub):
+                    if isinstance(n, ast.Name):
+                        nested_reads.add(n.id)
+        changed = True
+        while changed:
+            changed = False
+            for parent in list(_walk_no_nested_defs([fn])):
+                for field in ("body", "orelse", "finalbody"):
+                    block = getattr(parent, field, None)
+                    if not isinstance(block, list):
+                        continue
+                    for i, st in enumerate(block):
+                        if not (isinstance(st, ast.Assign) and len(st.targets) == 1 and isinstance(st.targets[0], ast.Name)):
+                            continue
+                        name = st.targets[0].id
+                        if stores.get(name) != 1 or name in params or name in nested_reads or name.startswith("__") or not _is_observer(st.value):
+                            continue
+                        rest = block[i + 1:]
+                        reads_rest = [n for s_ in rest for n in ast.walk(s_) if isinstance(n, ast.Name) and n.id == name and isinstance(n.ctx, ast.Load)]
+                        reads_all = [n for n in ast.walk(fn) if isinstance(n, ast.Name) and n.id == name and isinstance(n.ctx, ast.Load)]
+                        if not reads_rest or len(reads_rest) != len(reads_all) or len(reads_all) > 4:
+                            continue
+                        if any(name == x for x in _names_in(st.value)):
+                            continue
+                        # nothing the expression reads is re-bound or mutated up to the last statement that reads the name
+                        last = max(j for j, s_ in enumerate(rest) if any(n in reads_rest for n in ast.walk(s_)))
+                        paths = _paths(st.value)
+                        roots = {p_.split(".")[0].split("[")[0] for p_ in paths}
+                        span = rest[:last + 1]
+                        bad = False
+                        for j, s_ in enumerate(span):
+                            reads_here = any(n in reads_rest for n in ast.walk(s_))
+                            if _interferes(s_, roots, paths):
+                                # a statement may both read the name and store through it (`rows.loc[mask, c] = v`): fine if it is the last reader
+                                if not (reads_here and j == last and not isinstance(s_, (ast.For, ast.While, ast.If, ast.With, ast.Try))):
+                                    bad = True
+                                    break
+                        # a loop around the reads re-evaluates the expression each time: only if nothing in the loop interferes (checked above)
+                        if bad:
+                            continue
+                        val = st.value
+
+                        class R(ast.NodeTransformer):
+                            def visit_Name(self, n):
+                                if isinstance(n.ctx, ast.Load) and n.id == name:
+                                    import copy as _copy
+                                    return ast.copy_location(_copy.deepcopy(val), n)
+                                return n
+                        for k_ in range(len(rest)):
+                            rest[k_] = R().visit(rest[k_])
+                        block[:] = block[:i] + rest
+                        stores[name] = 0
+                        count += 1
+                        changed = True
+                        break
+                    if changed:
+                        break
+                if changed:
+                    break
+    if count:
+        ast.fix_missing_locations(tree)
+    return count
 
 
 def inline_unknown_helpers(tree: ast.Module, modname: str, known: Set[str]) -> Tuple[ast.Module, List[str]]:
